@@ -254,7 +254,7 @@ func maskName(mask int) string {
 	return s
 }
 
-const directiveVariants = 6
+const directiveVariants = 8
 
 // directive returns a ;;;; comment prefix expressing mask, spelled in one of several ways.
 func directive(mask, variant int) string {
@@ -271,6 +271,24 @@ func directive(mask, variant int) string {
 		s := "\n  ; note\n"
 		for i := range names {
 			s += ";;;; " + names[i] + ": " + b(i) + "\n; between\n"
+		}
+		return s
+	case 6: // named options that say the opposite first, then the umbrella switch off, then the enabled ones: the later directive wins
+		nb := func(i int) string { return strconv.FormatBool(mask&(1<<i) == 0) }
+		s := ";;;; " + names[3] + ": " + nb(3) + ", " + names[0] + ": " + nb(0) + ", optimize: false\n"
+		for i := range names {
+			if mask&(1<<i) != 0 {
+				s += ";;;; " + names[i] + ": true\n"
+			}
+		}
+		return s
+	case 7: // the same with the umbrella switch on, on separate lines
+		nb := func(i int) string { return strconv.FormatBool(mask&(1<<i) == 0) }
+		s := ";;;; " + names[1] + ": " + nb(1) + "\n;;;; " + names[2] + ": " + nb(2) + "\n;;;; optimize: true\n"
+		for i := range names {
+			if mask&(1<<i) == 0 {
+				s += ";;;; " + names[i] + ": false\n"
+			}
 		}
 		return s
 	case 0: // one line, all four
